@@ -294,6 +294,9 @@ where
         let approximate_nbr_frames =
             self.chunk_size as f64 * (0.5 * self.resample_ratio + 0.5 * self.target_ratio);
         let t_ratio_increment = (t_ratio_end - t_ratio) / approximate_nbr_frames;
+        // The loop may run a few more frames than estimated, don't let the ramp pass the target.
+        let t_ratio_min = t_ratio.min(t_ratio_end);
+        let t_ratio_max = t_ratio.max(t_ratio_end);
         let end_idx = self.chunk_size as isize
             - (POLYNOMIAL_LEN_I + 1)
             - t_ratio.max(t_ratio_end).ceil() as isize;
@@ -313,7 +316,7 @@ where
         match self.interpolation {
             PolynomialDegree::Septic => {
                 while idx < end_idx as f64 {
-                    t_ratio += t_ratio_increment;
+                    t_ratio = (t_ratio + t_ratio_increment).clamp(t_ratio_min, t_ratio_max);
                     idx += t_ratio;
                     let idx_floor = idx.floor();
                     let start_idx = idx_floor as isize - 3;
@@ -347,7 +350,7 @@ where
             }
             PolynomialDegree::Quintic => {
                 while idx < end_idx as f64 {
-                    t_ratio += t_ratio_increment;
+                    t_ratio = (t_ratio + t_ratio_increment).clamp(t_ratio_min, t_ratio_max);
                     idx += t_ratio;
                     let idx_floor = idx.floor();
                     let start_idx = idx_floor as isize - 2;
@@ -381,7 +384,7 @@ where
             }
             PolynomialDegree::Cubic => {
                 while idx < end_idx as f64 {
-                    t_ratio += t_ratio_increment;
+                    t_ratio = (t_ratio + t_ratio_increment).clamp(t_ratio_min, t_ratio_max);
                     idx += t_ratio;
                     let idx_floor = idx.floor();
                     let start_idx = idx_floor as isize - 1;
@@ -415,7 +418,7 @@ where
             }
             PolynomialDegree::Linear => {
                 while idx < end_idx as f64 {
-                    t_ratio += t_ratio_increment;
+                    t_ratio = (t_ratio + t_ratio_increment).clamp(t_ratio_min, t_ratio_max);
                     idx += t_ratio;
                     let idx_floor = idx.floor();
                     let start_idx = idx_floor as isize;
@@ -449,7 +452,7 @@ where
             }
             PolynomialDegree::Nearest => {
                 while idx < end_idx as f64 {
-                    t_ratio += t_ratio_increment;
+                    t_ratio = (t_ratio + t_ratio_increment).clamp(t_ratio_min, t_ratio_max);
                     idx += t_ratio;
                     let start_idx = idx.floor() as isize;
                     for (chan, active) in self.channel_mask.iter().enumerate() {
